@@ -104,7 +104,35 @@ func VerifC02Loops() {
 	it := iter(vrt.Choice("iter", vrt.Param("niter", NIter)))
 	vrt.Note("iterator", Src(it))
 	p.steps("init", false, asg("acc", node.List{}))
-	switch vrt.Choice("consumer", 12) {
+	switch vrt.Choice("consumer", 14) {
+	case 12: // a function that returns out of a loop after some rounds is called before a loop and
+		// again in that loop's body, all in one statement
+		rounds := vrt.Choice("rounds", 3)
+		lo := vrt.Choice("first-searched", 3) // the search made in the first round of the loop runs lo+1 rounds itself
+		p.steps("def", false,
+			asg("find", fn(blk(forl("i", call("fromto", ilit(0), ilit(5)), ifs(bin("==", nm("i"), nm("n")), ret(bin("*", nm("i"), ilit(10))))), ilit(-1)), "n")),
+			asg("find2", fn(blk(forl("i", call("fromto", ilit(0), ilit(3)), forl("j", call("two"), ifs(bin("==", nm("i"), nm("n")), ret(node.List{Elems: []node.Type{nm("i"), nm("j")}})))), ilit(-1)), "n")))
+		fnd := "find"
+		if vrt.Bool("nested-search") {
+			fnd = "find2"
+		}
+		p.Step(blk(asg("first", call(fnd, ilit(rounds))), asg("r", node.List{}),
+			forl("k", call("fromto", ilit(lo), ilit(lo+2)), asg("r", bin("+", nm("r"), node.List{Elems: []node.Type{node.List{Elems: []node.Type{nm("k"), call(fnd, nm("k"))}}}}))),
+			forl("e", it, call("write", nm("e"))),
+			node.List{Elems: []node.Type{nm("first"), nm("r"), call(fnd, ilit(rounds)), call(fnd, ilit(1))}}), true, "returning-search-before-and-inside-a-loop")
+	case 13: // a generator that calls such a function, then loops zipping three generators
+		p.steps("def", false,
+			asg("find", fn(blk(forl("i", call("fromto", ilit(0), ilit(5)), ifs(bin("==", nm("i"), nm("n")), ret(bin("*", nm("i"), ilit(10))))), ilit(-1)), "n")),
+			asg("gf", fn(blk(yld(call("find", ilit(1))), yld(call("find", nm("n"))), yld(call("find", ilit(9)))), "n")))
+		zip3 := node.For{VarRefs: node.List{Elems: []node.Type{nm("a"), nm("b"), nm("c")}},
+			Iterators: node.List{Elems: []node.Type{call("fromto", ilit(0), ilit(3)), call("fromto", ilit(10), ilit(13)), call("elems", node.List{Elems: []node.Type{lit(), lit(), lit()}})}},
+			Body: asg("r", bin("+", nm("r"), node.List{Elems: []node.Type{node.List{Elems: []node.Type{nm("a"), nm("b"), nm("c")}}}}))}
+		var first node.Type = forl("e", call("gf", ilit(2)), asg("r", bin("+", nm("r"), node.List{Elems: []node.Type{nm("e")}})))
+		if vrt.Bool("abandon-first") {
+			first = asg("ab", fn(blk(forl("e", call("gf", ilit(2)), ifs(bin("==", nm("e"), ilit(20)), ret(nm("e")))), ilit(0))))
+			first = blk(first, call("ab"))
+		}
+		p.Step(blk(asg("r", node.List{}), first, forl("e", it, call("write", nm("e"))), zip3, zip3, nm("r")), true, "three-way-zip-after-generator-with-returning-search")
 	case 10: // loops inside closures whose iterator expression reads a captured variable; several
 		// closure instances run in one statement, so their generator contexts are recycled
 		p.steps("def", false,
@@ -164,8 +192,14 @@ func VerifC03Pure() {
 	p := NewPair()
 	k := lit()
 	var f node.Type
-	fk := vrt.Choice("function", 8)
+	fk := vrt.Choice("function", 9)
 	switch fk {
+	case 8: // a generator makes a closure, its own stack grows, it updates the captured variable and
+		// yields the closure; the loop calls it
+		p.steps("define", false,
+			asg("dive", fn(node.IfElse{Condition: bin(">", nm("n"), ilit(0)), TrueCase: bin("+", call("dive", bin("-", nm("n"), ilit(1))), ilit(1)), FalseCase: ilit(0)}, "n")),
+			asg("mkg", fn(blk(asg("y", nm("n")), asg("g", fn(bin("+", nm("y"), nm("q")), "q")), asg("dd", call("dive", ilit(vrt.Param("gendive", 100)))), asg("y", bin("*", nm("n"), ilit(2))), yld(nm("g"))), "n")))
+		f = fn(blk(asg("r", ilit(0)), forl("h", call("mkg", nm("a")), asg("r", call("h", k))), nm("r")), "a")
 	case 6: // nested loops
 		f = fn(blk(asg("s", ilit(0)), forl("u", call("fromto", ilit(0), ilit(2)), forl("w", call("fromto", ilit(0), ilit(2)), asg("s", bin("+", nm("s"), nm("a"))))), nm("s")), "a")
 	case 7: // a loop over a generator that loops over a generator
